@@ -84,7 +84,8 @@ Theorem save_obj_step f c t pad cb f' pages :
       filter (is_serial (cut_s k)) (cut_before k) ++ map fst (cut_run k) ++ filter (is_serial (cut_s k)) (cut_gn k) /\
     filter (is_serial (cut_s k)) (cut_result k news) =
       filter (is_serial (cut_s k)) (cut_before k) ++ cut_prepared k news ++ filter (is_serial (cut_s k)) (cut_tail k news) /\
-    news_ok (map fst (cut_run k)) (cut_on k) news /\ Forall page_wf (cut_result k news).
+    news_ok (map fst (cut_run k)) (cut_on k) news /\ Forall page_wf (cut_result k news) /\
+    ogg_f_inject c t pad cb f = Ok (olds, news).
 Proof.
   intros Hp Hs H. apply parse_iff in Hp as (-> & W). unfold ogg_save_obj in H.
   destruct (ogg_f_inject c t pad cb (render_all pages)) as [[olds news]|e] eqn:I; [|discriminate].
@@ -139,7 +140,7 @@ Proof.
   { unfold cut_result. rewrite filter_app. f_equal. exact V3. }
   assert (Hoth : filter (not_serial (cut_s k)) (cut_result k news) = filter (not_serial (cut_s k)) pages).
   { unfold cut_result. rewrite Ep, !filter_app. f_equal. exact V1. }
-  split; [|split; [exact Hoth|split; [exact Hold|split; [exact Hnew|split; [exact NK|exact Wres]]]]].
+  split; [|split; [exact Hoth|split; [exact Hold|split; [exact Hnew|split; [exact NK|split; [exact Wres|reflexivity]]]]]].
   unfold ogg_f_streams_ok. apply forallb_forall. intros p Hp.
   destruct (p_serial p =? cut_s k) eqn:Es.
   - apply Z.eqb_eq in Es. rewrite Es, ogg_is_serial_eq, Hnew.
